@@ -1,6 +1,7 @@
 import OcppProps.CDSim
 import OcppProps.C07Fine
 import OcppProps.C07FineOrder
+import OcppProps.SFine
 import OcppModel.ServerSpec
 import OcppModel.Expected
 import OcppGen.Skeletons
@@ -114,5 +115,34 @@ example : wf [] (CD.init 2) [.start, .send "a", .send "b", .send "c", .reply "a"
     .send "d", .reconnect, .reply "c" true, .stop, .start, .send "e"] = true := by decide
 example : (history (CD.init 2) [.start, .send "a", .send "b", .reply "a" false]).map (·.2) =
     [[], [.accepted "a", .wrote "a"], [.accepted "b"], [.resp "a", .wrote "b"]] := by decide
+
+/-! ### Below quiescence, server dispatcher (per client): every interleaving of pump, reader, senders holding queue
+objects, link, time-out and ready-signal goroutines and the other clients' use of the ready slot — proved in
+`OcppProps/SFine.lean` for the small-step model `Ocpp.ServerFine` of the repaired `DefaultServerDispatcher` -/
+
+/-- no CALL is written twice to a client -/
+theorem sfine_written_once {s : Ocpp.ServerFine.St} (h : SFine.Reach s) : s.wire.Nodup := SFine.written_once h
+
+/-- a written CALL that is still in the client's current queue is the pending one -/
+theorem sfine_written_and_queued_is_pending {s : Ocpp.ServerFine.St} (h : SFine.Reach s) (i x : Nat) (hc : s.cur = some i)
+    (hx : x ∈ Ocpp.ServerFine.getQ s.qs i) (hw : x ∈ s.wire) : s.pend = some x :=
+  SFine.written_and_queued_is_pending h i x hc hx hw
+
+/-- the pending request, if it is in the client's current queue, is its head -/
+theorem sfine_pending_is_head {s : Ocpp.ServerFine.St} (h : SFine.Reach s) (p i : Nat) (hp : s.pend = some p) (hc : s.cur = some i)
+    (hx : p ∈ Ocpp.ServerFine.getQ s.qs i) : (Ocpp.ServerFine.getQ s.qs i).head? = some p :=
+  SFine.pending_is_head h p i hp hc hx
+
+/-- inside `Write` for `h`: `h` was not written before and nothing else is pending -/
+theorem sfine_write_only_own_pending {s : Ocpp.ServerFine.St} (h : SFine.Reach s) (hh : Nat) (hp : s.pump = .wr hh) :
+    hh ∉ s.wire ∧ (s.pend = some hh ∨ s.pend = none) := SFine.write_only_own_pending h hh hp
+
+/-- one outstanding CALL: at the moment of a write no written request waits in the client's current queue -/
+theorem sfine_one_outstanding_at_write {s : Ocpp.ServerFine.St} (h : SFine.Reach s) (hh : Nat) (hp : s.pump = .wr hh)
+    (i x : Nat) (hc : s.cur = some i) (hx : x ∈ Ocpp.ServerFine.getQ s.qs i) : x ∉ s.wire :=
+  SFine.one_outstanding_at_write h hh hp i x hc hx
+
+example : ∃ s, SFine.Reach s ∧ s.pump = .wr 1 :=
+  ⟨_, ⟨true, true, [.connect, .sget, .push 1 0, .notify, .takeReq, .pstep, .pstep, .pstep, .pstep, .pstep, .pstep, .pstep], rfl⟩, by decide⟩
 
 end C02
